@@ -12,7 +12,7 @@ TB = ("Trusted: Kani's MIR->goto translation, CBMC/CaDiCaL, the reference model 
 CLAIMS = {
  "C01": dict(technique=BRD + "; per-origin generation vs make-move legality oracle",
     text="For every accepted board (no piece bound), every origin square and every move value the solver decides that generation restricted to that origin yields exactly the reference-legal moves of that origin, each in exactly one non-empty batch, in <= 2 batches, without panic; the FULL mask is the union over origins through the dispatch layer decided in C16. Both slider back ends are covered through C05's equivalence of each back end with the stub formulas.",
-    note=TB + "Bounds: none on pieces; quick tier runs the king, pawn and one rotating cube (others listed as not run). Full-mask generation is covered compositionally (per origin + dispatch), not by one monolithic query.",
+    note=TB + "Bounds: none on pieces. Quick decides the statement compositionally: dispatch layer with generators stubbed + every real generator on one and on two origins of its kind + silence on foreign masks + double-check lemma, plus three rotating cubes over the public generate_moves_for; thorough runs all 21 public-entry cubes. Masks with three or more pieces of one kind rest on the loops' per-iteration independence (not solver-decided).",
     design="DESIGN.md §3 C01"),
  "C02": dict(technique=BRD + "; one inductive step (play_unchecked) from an arbitrary accepted board with an arbitrary legal move",
     text="One symbolic step decides, for every accepted board and legal move, that placement, side, rights, en-passant file and both clocks of the successor equal the rules' successor and that the successor is again accepted (closure), so the statement extends to histories of any length by induction.",
@@ -39,20 +39,20 @@ CLAIMS = {
     design="DESIGN.md §3 C08"),
  "C09": dict(technique="Kani/CBMC: build() sequencing and error attribution on a fully symbolic builder (validators stubbed by reference predicates); from_board on accepted boards; field parsers vs the same writers",
     text="Builder side in full: build() succeeds exactly on accepted states, the board's fields equal the builder's content, and the error names the first wrong aspect (incl. ep square on the wrong rank, right on the wrong side of the king, three checkers); from_board reproduces position and clocks. Parser side at field level only (C08).",
-    note=TB + "Record-level equality from_fen(text) == build(state) is outside the claim. from_board bounded to <= 4 pieces per colour in quick.",
+    note=TB + "Record-level equality from_fen(text) == build(state) is outside the claim. Quick: builder with pieces confined to three ranks (rotating with VERIF_SEED), from_board <= 4 pieces per colour; thorough: 64-cell builder, from_board unbounded.",
     design="DESIGN.md §3 C09"),
  "C10": dict(technique=BRD + "; hash of the successor == XOR of behavioural feature keys (step), writers linear in the keys (every raw state)",
     text="Every writer changes the hash by exactly the keys of the features it adds/removes from any raw state; play_unchecked and null_move keep hash == XOR of feature keys of the position; hash_without_ep strips exactly the ep key; the builder route is decided in C09 (thorough). Hence the hash is a function of the position alone.",
-    note=TB + "Bounds as C02 for the step; clocks never enter any key.", design="DESIGN.md §3 C10"),
+    note=TB + "Bounds as C02 for the step; quick runs the castle cube and one rotating piece cube (7-20 min per cube), thorough all seven without the slider bound. The hash change is stated sparsely (keys looked up through the real writers); the builder route is covered compositionally (linearity + build() content equality). Clocks never enter any key.", design="DESIGN.md §3 C10, §10.2"),
  "C11": dict(technique="Kani/CBMC for linearity of the writers; z3 cube-and-conquer over the 793 dumped keys for XORs of 1..4 distinct keys (cubes by low-6-bit class), cross-checked by a meet-in-the-middle computation",
-    text="The hash is the XOR of feature keys (linearity + C10), and no XOR of 1..3 (quick) / 1..4 (thorough) distinct keys is zero: complete over all key tuples, each cube decided by z3.",
+    text="The hash is the XOR of feature keys (linearity + C10), and no XOR of 1..4 distinct keys is zero: complete over all key tuples in both tiers (1 + 64 + 715 + ~12.5k cubes), each cube decided by z3.",
     note="Trusted: z3, the key dump through the writer hooks. Castle keys shared by the two wings of one file count once.", design="DESIGN.md §3 C11", engine="kani+z3"),
  "C12": dict(technique="Kani/CBMC: status() with generate_moves stubbed by an arbitrary answer (every board value); dispatch/abort layer with generators stubbed; per-origin abort harnesses",
     text="status() equals the table (has-move, clock, in-check) for every board value; 'has a legal move' is generate_moves(|_| true), whose result is decided by the dispatch harness (true iff some batch is delivered) and the per-origin harnesses (batches are the legal moves, C01).",
     note=TB + "Compositional: no single query runs status() with the real generator on a symbolic board.", design="DESIGN.md §3 C12"),
  "C13": dict(technique=BRD + "; same_position vs reference identity with an ep-less twin board",
-    text="For every accepted board with an ep file: same_position with its ep-less twin is true exactly when no legal en-passant capture exists (incl. a non-pawn standing beside the pushed pawn), symmetric and reflexive; thorough decides arbitrary pairs of accepted boards against reference identity.",
-    note=TB + "Hashes modelled as an arbitrary function of the position (C10).", design="DESIGN.md §3 C13"),
+    text="For every accepted board with an ep file: same_position with its ep-less twin (arbitrary clocks) is true exactly when no legal en-passant capture exists (incl. a non-pawn standing beside the pushed pawn), in both argument orders; thorough adds reflexivity and the same board under two different ep files against reference identity.",
+    note=TB + "Hashes modelled as an arbitrary function of the position (C10). Two arbitrary boards in one query (c13_pair) did not finish and is not part of the claim; pairs differing in placement/side/rights are covered only through the shared board_is_equal/hash comparison being exercised by the twin harnesses.", design="DESIGN.md §3 C13, §10.6"),
  "C14": dict(technique=BRD + "; one null-move step from an arbitrary accepted board",
     text="null_move is None exactly in check; otherwise placement/rights unchanged, side flipped, ep cleared, clocks saturating, checkers/pins/hash equal the reference of the new position, and the result is accepted (closure).",
     note=TB + "Bounds: <= 4 aligned enemy sliders in quick, none in thorough.", design="DESIGN.md §3 C14"),
